@@ -100,9 +100,9 @@ var plans = map[string]plan{
 		Assumptions: []string{"the four argument types are pairwise non-assignable, as the property quantifies"},
 	},
 	"C12": {
-		Quick:    tierPlan{Shards: 16, Checks: 6, Shrink: "60s", Limit: 30 * time.Minute},
-		Thorough: tierPlan{Shards: 16, Checks: 120, Shrink: "5m", Limit: 4 * time.Hour},
-		Rule: "each case is a generated package (3-12 calls of structural and list plugins over the supported grammar) emitted with default names and with names rewritten for a drawn prefix map: a global -prefix, 1-4 per-plugin overrides (optionally on top of a global prefix), or nested overrides where one plugin's prefix is a proper prefix of another's (2-3 levels, either plugin may have the longer default prefix); the customised run uses the registered plugin order and one of three binaries built from a scratch copy of the repository whose registration list is reversed / rotated / sorted; judged: customised run succeeds, both outputs canonicalised (every generated function renamed to <plugin by longest configured prefix>(parameter types), declarations sorted) are equal, and for a global prefix the text is identical after substituting the prefix; non-trivial = nested overrides or >= 3 overrides; distinct by (flags, sources)",
+		Quick:    tierPlan{Shards: 16, Checks: 15, Shrink: "60s", Limit: 30 * time.Minute},
+		Thorough: tierPlan{Shards: 16, Checks: 1200, Shrink: "5m", Limit: 4 * time.Hour},
+		Rule: "each case is a generated package (3-12 calls of structural and list plugins over the supported grammar) emitted with default names and with names rewritten for a drawn prefix map: a global -prefix, 1-4 per-plugin overrides (optionally on top of a global prefix), or nested overrides where one plugin's prefix is a proper prefix of another's (2-3 levels, either plugin may have the longer default prefix); the customised run uses the registered plugin order and one of three binaries built from a scratch copy of the repository whose registration list is reversed / rotated / sorted; judged: customised run succeeds, both outputs canonicalised (import aliases replaced by import paths, every generated function and callee renamed to its shape '(parameter types) result types', declarations sorted) are equal, every call the user wrote (deriveXTn) is answered in the customised output by the same canonical function as in the default output (this is the longest-match dispatch check: the plugin is read off what the function computes, never off its name), and for a global prefix the text is identical after substituting the prefix; non-trivial = nested overrides or >= 3 overrides; distinct by (flags, sources)",
 		Assumptions: []string{"the registration list in main.go keeps the form 'x.NewPlugin(),' per line (otherwise the order variants are skipped and said so in the notes)"},
 	},
 	"C07": {
